@@ -41,6 +41,9 @@ FAMILY = [
     # an output whose flattened ranks are not contiguous / not in flattening order in its declaration
     (({"A": "[M, N, O]", "Z": "[M, O, N]"}, "Z[m, o, n] = A[m, n, o]"),
      ["(M, N, O): [flatten()]", "MNO: [uniform_occupancy(A.4)]"], ["MNO1", "MNO0"], [["MNO1", "MNO0"]]),
+    # an output flattened over adjacent ranks in declaration order (its flattened and unflattened names coincide)
+    (({"A": "[M, N, O]", "Z": "[M, N, O]"}, "Z[m, n, o] = A[m, n, o]"), ["(N, O): [flatten()]"], ["M", "NO"], []),
+    (({"A": "[M, N, O]", "Z": "[M, N, O]"}, "Z[m, n, o] = A[m, n, o]"), ["(M, N, O): [flatten()]"], ["MNO"], []),
     (({"A": "[M, N, O]", "Z": "[N, M, O]"}, "Z[n, m, o] = A[m, n, o]"),
      ["(M, N, O): [flatten()]"], ["MNO"], []),
     (({"A": "[M, N, O, P]", "Z": "[P, M, O, N]"}, "Z[p, m, o, n] = A[m, n, o, p]"),
